@@ -37,7 +37,10 @@ INHERIT = ["HOME", "LOGNAME", "PATH", "SHELL", "TERM", "USER"]
 ARG_POOL = ["plain", "with space", "", "quo\"te", "sin'gle", "--flag=value", "ünï\U0001f600", "back\\slash", "$HOME", "a;b|c&d",
             "*", "new\nline", "-", "--", "tab\there", "%s", "{json:1}"]
 ENV_POOL = [None, {}, {"FOO": "bar"}, {"PATH": "/usr/bin:/bin", "X_Y": "ü \U0001f600", "EMPTY": ""},
-            {"LOG_LEVEL": "ERROR", "A": "1"}, {"HOME": "/nonexistent", "TERM": "dumb", "Z": "z z"}]
+            {"LOG_LEVEL": "ERROR", "A": "1"}, {"HOME": "/nonexistent", "TERM": "dumb", "Z": "z z"},
+            {"BRAVE_API_KEY": "sk-123 456", "GITHUB_TOKEN": "ghp_\u00fc", "DB_PASSWORD": "p@ss=w:rd", "client_secret": "s3cr3t"},
+            {"Key": "k", "token": "t", "MY_SECRET_VALUE": "", "PASSWORD": "********", "NOT_SENSITIVE": "plain"},
+            {"PYTHONPATH": "/x:/y", "LD_LIBRARY_PATH": "/lib", "LANG": "C.UTF-8", "1NUM": "n", "lower_case": "v"}]
 TIMEOUTS = ["__absent__", 5, 2.5, "7", "3.5", None]
 
 
